@@ -43,12 +43,14 @@ theorem gen_set_columns :
 
 open Stab.Gen.StoreSql in
 /-- `upsert_task`: a fresh row starts at version 0; `rowcount == 0` / IntegrityError become ConcurrencyError;
-    the in-memory versions follow the row versions; the transaction context rolls back on an exception -/
+    the in-memory versions follow the row versions; the auto-commit store_stage rolls back before it raises
+    (F33 repair) and the transaction context rolls back on an exception -/
 theorem gen_shapes :
     taskInsert.contains ("version", "0") = true ∧ taskUpdate.table = "task_executions" ∧
     storeRowcountZeroRaises = true ∧ txnRowcountZeroRaises = true ∧ taskIntegrityErrorMapped = true ∧
     storeBumpsLocalVersion = true ∧ txnBumpsLocalVersion = true ∧ taskBumpsLocalVersion = true ∧
-    storeCommits = true ∧ txnStoreStageCommits = false ∧ txnContextRollsBackOnException = true := by decide
+    storeCommits = true ∧ storeRollsBackOnConflict = true ∧
+    txnStoreStageCommits = false ∧ txnContextRollsBackOnException = true := by decide
 
 /-! ## at most one winner per version -/
 
@@ -96,29 +98,14 @@ theorem second_writer_conflicts (s : State) (c1 c2 : Nat) (o1 o2 : Obj) (t1 t2 :
 
 /-! ## no lost update -/
 
-/-- **No lost update.** If no write ended half-applied (see below: impossible without an outside writer of
-    task rows, and impossible in the transactional variant), then after any interleaving the durable content
-    is the fold of the SUCCESSFUL modifications in commit order, each applied to what its predecessor left. -/
-theorem no_lost_update (st nt : Nat) (ops : List Op) (np : noPartial (init st nt) ops = true) :
-    (run (init st nt) ops).db.content = fold (init st nt).db.content (run (init st nt) ops).log :=
-  (inv_run (inv_init st nt) (by simp [Folded, fold, init]) ops np).2
-
-/-- every successful write was computed from exactly the content it replaced: a client whose snapshot has the
-    current version holds the current content -/
-theorem snapshot_current_iff_version (st nt : Nat) (ops : List Op) (np : noPartial (init st nt) ops = true)
-    (c : Nat) (o : Obj) (h : getObj (run (init st nt) ops) c = some o)
-    (hv : o.version = (run (init st nt) ops).db.version) :
-    o.base = (run (init st nt) ops).db.content ∧ o.cur = fold o.base o.pend := by
-  have hi := (inv_run (c0 := (init st nt).db.content) (inv_init st nt) (by simp [Folded, fold, init]) ops np).1
-  have hm := getObj_mem h
-  exact ⟨hi.fresh (c, o) hm hv, hi.cur (c, o) hm⟩
-
-/-- the transactional variant is all-or-nothing: a ConcurrencyError leaves the state untouched -/
-theorem txn_write_atomic (s : State) (c : Nat) (p : Option Nat) (h : (writeOp s c true p).2 ≠ .ok) :
-    (writeOp s c true p).1 = s ∧ (writeOp s c true p).2 ≠ .conflictPartial := by
+/-- **A failed write changes nothing** — in BOTH variants (the auto-commit `store_stage` rolls back before it raises
+    since the F33 repair; the transaction context always did), also when the failure comes from a task row that an
+    outside writer changed after the stage UPDATE had succeeded. -/
+theorem failed_write_changes_nothing (s : State) (c : Nat) (txn : Bool) (p : Option Nat)
+    (h : (writeOp s c txn p).2 ≠ .ok) : (writeOp s c txn p).1 = s := by
   unfold writeOp at h ⊢
   split
-  · exact ⟨rfl, by simp⟩
+  · rfl
   · rename_i o ho
     simp only [ho] at h
     split
@@ -129,79 +116,42 @@ theorem txn_write_atomic (s : State) (c : Nat) (p : Option Nat) (h : (writeOp s 
       simp only [hu] at h
       split
       · rename_i hok; simp [hok] at h
-      · exact ⟨rfl, by simp⟩
-    · exact ⟨rfl, by simp⟩
+      · rfl
+    · rfl
 
-/-
-  FULL STATEMENT (not proved): for every op sequence WITHOUT `bump` (no writer of task rows other than `store_stage`),
-  `noPartial (init st nt) ops = true` — in both variants.  It needs one more invariant (a client whose stage version is
-  current also holds the current task versions, "lock-step"), i.e. a post-condition of `upsertAll` on the in-memory
-  versions; the harness checks it on every bump-free trace instead (monitor `half-applied-write-without-outside-writer`).
-  PROVED below: the hypothesis of `no_lost_update` holds for every sequence whose writes / retries are all
-  transactional — with or without an outside writer.
--/
-theorem no_half_applied_write_partial (st nt : Nat) (ops : List Op)
-    (htx : ∀ op ∈ ops, ∀ c p, op ≠ .write c false p ∧ op ≠ .retry c false p) :
-    noPartial (init st nt) ops = true := by
-  suffices h : ∀ (s : State), noPartial s ops = true from h _
-  induction ops with
-  | nil => intro s; rfl
-  | cons op ops ih =>
-    intro s
-    simp only [noPartial, Bool.and_eq_true, bne_iff_ne, ne_eq]
-    refine ⟨?_, ih (fun o ho => htx o (by simp [ho])) _⟩
-    have hop := htx op (by simp)
-    cases op with
-    | read c => simp [step]
-    | modify c m => simp only [step]; split <;> simp
-    | bump t => simp [step]
-    | write c t p =>
-      cases t with
-      | false => exact absurd rfl (hop c p).1
-      | true =>
-        by_cases hk : (writeOp s c true p).2 = .ok
-        · simp [step, hk]
-        · exact (txn_write_atomic s c p hk).2
-    | retry c t p =>
-      cases t with
-      | false => exact absurd rfl (hop c p).2
-      | true =>
-        simp only [step, retryOp]
-        split
-        · simp
-        · rename_i o _
-          by_cases hk : (writeOp (reapply (readOp s c) c o.pend) c true p).2 = .ok
-          · simp [hk]
-          · exact (txn_write_atomic _ c p hk).2
+/-- **No lost update.** After ANY interleaving of reads, modifications, writes (auto-commit or transactional, with or
+    without expected_phase), retries and outside task writers, the durable content is the fold of the SUCCESSFUL
+    modifications in commit order, each applied to what its predecessor left.  (Before the F33 repair this needed
+    "no write ended half-applied", which the auto-commit variant could violate.) -/
+theorem no_lost_update (st nt : Nat) (ops : List Op) :
+    (run (init st nt) ops).db.content = fold (init st nt).db.content (run (init st nt) ops).log :=
+  (inv_run (inv_init st nt) (by simp [Folded, fold, init]) ops).2
 
-/-
-  FULL STATEMENT (false for the auto-commit variant when task rows have another writer):
-    ∀ st nt ops, (run (init st nt) ops).db.content = fold (init st nt).db.content (run (init st nt) ops).log
-  Witness below: the stage UPDATE of `store_stage` succeeds, a later `upsert_task` raises ConcurrencyError, the function
-  re-raises WITHOUT rollback, and the connection's next commit makes the stage UPDATE durable although the caller was
-  told the write failed.
--/
+/-- every successful write was computed from exactly the content it replaced: a client whose snapshot has the
+    current version holds the current content -/
+theorem snapshot_current_iff_version (st nt : Nat) (ops : List Op)
+    (c : Nat) (o : Obj) (h : getObj (run (init st nt) ops) c = some o)
+    (hv : o.version = (run (init st nt) ops).db.version) :
+    o.base = (run (init st nt) ops).db.content ∧ o.cur = fold o.base o.pend := by
+  have hi := (inv_run (c0 := (init st nt).db.content) (inv_init st nt) (by simp [Folded, fold, init]) ops).1
+  have hm := getObj_mem h
+  exact ⟨hi.fresh (c, o) hm hv, hi.cur (c, o) hm⟩
+
+/-- the F33 schedule: read, modify, an outside writer bumps task 0, auto-commit write -/
 def partialOps : List Op :=
   [.read 0, .modify 0 { setStatus := none, entry := 7, taskSt := none, addTask := false }, .bump 0, .write 0 false none]
 
-theorem no_lost_update_counterexample :
-    ¬ (∀ (st nt : Nat) (ops : List Op),
-        (run (init st nt) ops).db.content = fold (init st nt).db.content (run (init st nt) ops).log) := by
-  intro h
-  exact absurd (h 1 1 partialOps) (by decide)
-
-example : (step (run (init 1 1) (partialOps.take 3)) (.write 0 false none)).2 = .conflictPartial := by decide
--- the same schedule through the transactional variant is rejected as a whole
-example : (step (run (init 1 1) (partialOps.take 3)) (.write 0 true none)).2 = .conflict ∧
-    (step (run (init 1 1) (partialOps.take 3)) (.write 0 true none)).1.db = (run (init 1 1) (partialOps.take 3)).db := by
-  decide
+-- regression: the write is refused as a whole in both variants, the row keeps version 0 and its content
+example : (step (run (init 1 1) (partialOps.take 3)) (.write 0 false none)).2 = .conflict ∧
+    (step (run (init 1 1) (partialOps.take 3)) (.write 0 false none)).1.db = (run (init 1 1) (partialOps.take 3)).db ∧
+    (step (run (init 1 1) (partialOps.take 3)) (.write 0 true none)).2 = .conflict := by decide
 -- non-vacuity of `no_lost_update`: two clients race, one loses, retries, both changes survive in commit order
 example :
     let ops : List Op := [.read 0, .read 1,
       .modify 0 { setStatus := some 2, entry := 1, taskSt := none, addTask := false },
       .modify 1 { setStatus := none, entry := 2, taskSt := some (0, 4), addTask := true },
       .write 0 true none, .write 1 false none, .retry 1 false none]
-    noPartial (init 1 2) ops = true ∧ (run (init 1 2) ops).db.content = { status := 2, payload := [1, 2] }
+    (run (init 1 2) ops).db.content = { status := 2, payload := [1, 2] }
       ∧ (run (init 1 2) ops).commits = [(0, 0), (1, 1)] := by decide
 
 /-! ## retry -/
